@@ -70,6 +70,22 @@ void state_rehash(struct snapraid_state* state)
 		/* if it's unused */
 		info = info_get(&state->infoarr, i);
 		if (info == 0) {
+			tommy_node* j;
+
+			/* a position never synced cannot be marked for rehash, */
+			/* but it may still have the hash of a file detected as a copy, */
+			/* or computed by a pre-hash. Being computed with the old hash, */
+			/* forget it to have it recomputed by the next sync */
+			for (j = state->disklist; j != 0; j = j->next) {
+				struct snapraid_disk* disk = j->data;
+				struct snapraid_block* block = fs_par2block_find(disk, i);
+
+				if (block_state_get(block) == BLOCK_STATE_REP) {
+					block_state_set(block, BLOCK_STATE_CHG);
+					hash_invalid_set(block->hash);
+				}
+			}
+
 			/* skip it */
 			continue;
 		}
